@@ -643,6 +643,46 @@ def __setitem__(self, name, data):
 '''
 
 
+P_CALC_DELAY = '''
+def _calc_delay(cache, name, inp):
+    stream = cache.get('Correlator/antenna_channelised_voltage_stream')[0]
+    sync_time = cache.get('Correlator/sync_time')[0]
+    scale_factor_timestamp = cache.get('Correlator/scale_factor_timestamp')[0]
+    getter = cache.get(f'{stream}_{inp}_delay', extract=False)
+    sensor_data = getter.get()
+    values = [ComparableArrayWrapper.unwrap(v) for v in sensor_data.value]
+    adc_sample_counts, delays, delay_rates, phases, phase_rates = zip(*values)
+    times = sync_time + np.array(adc_sample_counts) / scale_factor_timestamp
+    final_time = max(times[-1], cache.timestamps[-1]) + K_pad
+    next_times = np.r_[times[1:] - K_eps, final_time]
+    next_delays = delays + delay_rates * (next_times - times)
+    next_phases = phases + phase_rates * (next_times - times)
+    times = np.c_[times, next_times].ravel()
+    delays = np.c_[delays, next_delays].ravel()
+    phases = np.c_[phases, next_phases].ravel()
+    delay_data = SimpleSensorGetter(name, times, delays)
+    phase_data = SimpleSensorGetter(name, times, phases)
+    cache[name.replace('applied_phase', 'applied_delay')] = delay_data
+    cache[name.replace('applied_delay', 'applied_phase')] = phase_data
+    return delay_data if name.endswith('delay') else phase_data
+'''
+
+
+def item_v4_delay_shape(repo, out):
+    e = _match_function(repo, 'katdal/visdatav4.py', '_calc_delay', P_CALC_DELAY)
+    eps = e['K_eps']
+    if isinstance(eps, bool) or not isinstance(eps, (int, float)) or eps <= 0 or abs(round(1 / eps) * eps - 1) > 1e-9:
+        raise TranslateError('katdal/visdatav4.py:_calc_delay: interpolation end point offset %r is not 1/N' % (eps,))
+    out.append('Definition v4_delay_eps_inv : Z := %s.' % coq_Z(int(round(1 / eps))))
+    out.append('Definition v4_delay_final_pad : Z := %s.' % _coq_int(e['K_pad'], 'final_time padding'))
+    out.append('Definition v4_delay_steps : list string := %s.'
+               % coq_strings(('times=sync+count/scale', 'final=max(last update,last dump)+pad', 'next_times=times[1:]-eps,final',
+                              'next=value+rate*(next_times-times)', 'interleave', 'store delay and phase getters')))
+
+
+ITEMS.append(item_v4_delay_shape)
+
+
 def item_sensor_api_shape(repo, out):
     sd, cd = 'katdal/sensordata.py', 'katdal/concatdata.py'
     e = _match_function(repo, sd, 'remove_duplicates_and_invalid_values', P_CLEANUP)
